@@ -410,7 +410,12 @@ func multiMixedMTUCase(bad func(string, ...any)) {
 	}
 	a, b := mk(), mk()
 	defer func() {
-		// C12: the last payload sent to the larger transport was accepted and nobody receives it: Close ends all the same
+		// C12: a message that nobody receives is pending when the node is closed: Close ends all the same
+		if las := b.LocalAddrs(); len(las) > 0 {
+			pctx, pcf := context.WithTimeout(context.Background(), time.Second)
+			a.Tell(pctx, las[0], p2p.IOVec{[]byte("nobody receives this")})
+			pcf()
+		}
 		time.Sleep(60 * time.Millisecond)
 		closed := make(chan struct{})
 		go func() { b.Close(); a.Close(); close(closed) }()
@@ -445,6 +450,10 @@ func multiMixedMTUCase(bad func(string, ...any)) {
 		}
 		ctx, cf := context.WithTimeout(context.Background(), time.Second)
 		err := a.Tell(ctx, dst, p2p.IOVec{make([]byte, mtu+1)})
+		if err == nil {
+			// the larger transport takes it: receive it, so that it is not mistaken for a later payload
+			b.Receive(ctx, func(p2p.Message[multiswarm.Addr]) {})
+		}
 		cf()
 		if !p2p.IsErrMTUExceeded(err) && strings.HasPrefix(addrText(dst), "small") {
 			bad("C09 multiswarm (MTU()=%d): a payload of MTU()+1 bytes to %s is not refused with the MTU error: %v", mtu, addrText(dst), err)
